@@ -243,7 +243,10 @@ func rootKey(t types.Type) string {
 			}
 			return "[]" + elemKey(sl.Elem())
 		}
-		return "cell:" + typeKey(t.Underlying())
+		if ar, ok := u.Underlying().(*types.Array); ok {
+			return "[]" + elemKey(ar.Elem()) // an array object: same leaf as slice backing arrays
+		}
+		return rootKey(u.Underlying())
 	case *types.Alias:
 		return rootKey(types.Unalias(t))
 	case *types.Struct:
